@@ -661,6 +661,15 @@ next:
 			for _, queries := range p.enclosingAtMedia {
 				if css_ast.MediaQueriesEqual(r.Queries, queries, nil) {
 					mangledRules = append(mangledRules, r.Rules...)
+
+					// The next rule is now adjacent to the last one of these rules
+					// instead of to the rule that came before the nested "@media" rule
+					prevNonComment = nil
+					for _, unwrapped := range r.Rules {
+						if _, ok := unwrapped.Data.(*css_ast.RComment); !ok {
+							prevNonComment = unwrapped.Data
+						}
+					}
 					continue next
 				}
 			}
